@@ -172,7 +172,18 @@ META["C15"] = {
     "technique": "preemption-bounded stateless model checking under a controlled scheduler, each schedule executed under the Go race detector",
 }
 
-ENGINE_OF = {"C15": "sched", "C16": "seq", "C14": "seq", "C13": "seq", "C05": "seq", "C11": "seq", "C10": "seq+sched", "C12": "sched", "C03": "seq", "C06": "seq+sched", "C09": "sched", "C08": "seq", "C02": "seq+sched", "C04": "seq+sched", "C01": "seq+sched"}
+META["C07"] = {
+    "level": "model_checking",
+    "rule": "per rule set (none; each of 13 single rules: inbound QPS trigger 0/1/2, concurrency 0/1/2, average RT 0/3/5, load 1.0 and CPU 0.5 with and without BBR; 5-9 pairs; 2 triples) BFS over all histories to the depth bound of inbound entry / outbound entry / exit of any live entry (<=3 live, response time = virtual time in flight) / clock advances 2, 4, 500, 1000 ms / injected load 1.0, 1.5 / injected CPU 0.5, 0.8, through api.Entry; every decision is compared with the statement's predicate evaluated on a ref/window model of the inbound aggregate (QPS, in-flight, integer average RT, peak completion rate x minimum RT); outbound must never be system-blocked; the reported rule must be one of the violated ones; distinct = rule set + operation + answer",
+    "assumptions": [A_CLOCK, A_OVERLAY, "estimated capacity is read as at least one request (BBR never rejects the only request in flight), the upstream BBR rule", "which violated rule is REPORTED depends on Go map order and is only required to be a violated one", "BaseStatNode.AvgRT integer average mirrored"],
+    "budget_quick": 90,
+    "budget_thorough": 900,
+    "text": "Explicit-state exploration of inbound/outbound histories and injected readings through the real entry path against the statement's predicate on an independent aggregate model.",
+    "level_note": "Depth 6 (quick) / 8 (thorough); triggers chosen just around the values reachable within the bound.",
+    "technique": "explicit-state BFS over operation sequences on the implementation with reference predicate comparison",
+}
+
+ENGINE_OF = {"C07": "seq", "C15": "sched", "C16": "seq", "C14": "seq", "C13": "seq", "C05": "seq", "C11": "seq", "C10": "seq+sched", "C12": "sched", "C03": "seq", "C06": "seq+sched", "C09": "sched", "C08": "seq", "C02": "seq+sched", "C04": "seq+sched", "C01": "seq+sched"}
 
 # properties not claimed, with the reason (kept current)
 NOT_APPLICABLE = {}
